@@ -20,6 +20,7 @@ ops (all JSON lists, c = client index):
   ["ws_fail", c]               a connection attempt reaches TCP but the WebSocket negotiation fails (onClose without onOpen)
   ["svc_stopped", c]           ClientService.stopService() completes
   ["server_welcome_error", m]  the server starts (m: str) / stops (m: None) sending `error` in its welcome
+  ["msgid_collide", p]        from now on a message id comes out as one fixed value with probability p
 """
 import json
 import os
@@ -88,6 +89,24 @@ class FakeService:
         return d
 
 
+def big_hex(b):
+    """hex, except that a large body is named by its length and digest (keeps events and replays readable)"""
+    if len(b) <= 4096:
+        return b.hex()
+    import hashlib
+    return "big:%d:%s" % (len(b), hashlib.sha256(b).hexdigest()[:16])
+
+
+def big_body(spec):
+    """`x<N>`: a body of N bytes; `-`: empty; otherwise hex"""
+    if spec == "-":
+        return b""
+    if spec.startswith("x"):
+        n = int(spec[1:])
+        return bytes((i * 7 + n) % 256 for i in range(251)) * (n // 251) + b"\x5a" * (n % 251)
+    return bytes.fromhex(spec)
+
+
 class FakeWS:
     def __init__(self, conn):
         self.conn = conn
@@ -97,6 +116,12 @@ class FakeWS:
             # what autobahn's WebSocketProtocol.sendMessage does whenever its state is not OPEN
             from autobahn.exception import Disconnected
             raise Disconnected("Attempt to send on a closed protocol")
+        # ... and what it does with the protocol options the client put on its factory
+        limit = getattr(getattr(self.conn.client.svc, "factory", None), "maxMessagePayloadSize", 0)
+        if 0 < limit < len(payload):
+            from autobahn.exception import PayloadExceededError
+            raise PayloadExceededError("tried to send WebSocket message with size %d exceeding payload limit of %d octets"
+                                       % (len(payload), limit))
         self.conn.c2s.append(bytes(payload))
         self.conn.client.log.append(("tx", bytes_to_dict(payload)))
 
@@ -145,7 +170,7 @@ class Delegate:
         self.c.event("versions", json.dumps(versions, sort_keys=True))
 
     def wormhole_got_message(self, msg):
-        self.c.event("message", msg.hex())
+        self.c.event("message", big_hex(msg))
 
     def wormhole_closed(self, result):
         self.c.event("closed", verdict_name(result))
@@ -192,15 +217,24 @@ class Client:
                                ("versions", self.w.get_versions)]:
                 meth().addBoth(self._fired, name)
 
+    # an application whose callbacks take time (the clock moves while one runs) and which asks for the next message
+    # from inside a callback — both ordinary things for an application to do
+    slow = 0.0
+    read_in_callback = False
+
     def _fired(self, res, name):
         if isinstance(res, failure.Failure):
             self.event(name + "!", verdict_name(res))
         else:
             if isinstance(res, bytes):
-                res = res.hex()
+                res = big_hex(res)
             elif isinstance(res, dict):
                 res = json.dumps(res, sort_keys=True)
             self.event(name, res)
+            if self.slow:
+                self.world.clock.rightNow += self.slow
+            if self.read_in_callback and name in ("verifier", "message"):
+                self.w.get_message().addBoth(self._fired, "message")
 
     def event(self, name, value=None):
         self.events.append((name, value))
@@ -233,7 +267,11 @@ class World:
         self.sent = {}           # client index -> list of decoded frames the client sent (all connections)
 
     # deterministic randomness for side ids / msg ids / SPAKE2 scalars / word choice
+    msgid_collide = 0.0      # probability that a message id (the only 2-byte draw) comes out as the fixed value
+
     def _urandom(self, n):
+        if n == 2 and self.msgid_collide and self.rng.random() < self.msgid_collide:
+            return b"\xaa\xaa"
         return bytes(self.rng.randrange(256) for _ in range(n))
 
     def __enter__(self):
@@ -503,7 +541,7 @@ class World:
             elif name == "input_code":
                 c.helper = w.input_code()
             elif name == "send":
-                w.send_message(bytes.fromhex(args[0]) if args[0] != "-" else b"")
+                w.send_message(big_body(args[0]))
             elif name == "close":
                 if c.delegated:
                     w.close()
